@@ -100,6 +100,7 @@ type Instance struct {
 
 	snapMtx   sync.Mutex
 	silSnap   []byte // snapshot taken by the last maintenance run
+	silSnapAt time.Time
 	nflogSnap []byte
 
 	dead chan struct{} // closed when the process (instance) stops
@@ -280,6 +281,7 @@ func (s *Sim) newInstanceWith(idx, epoch int, spec *Config, silSnap, nflogSnap [
 			if err == nil {
 				in.snapMtx.Lock()
 				in.silSnap = buf.Bytes()
+				in.silSnapAt = time.Now()
 				in.snapMtx.Unlock()
 			}
 			return n, err
